@@ -62,6 +62,12 @@ CHECKS = {
          "right bytes); EINTR is injected at call k (bursts 1..n) of clock_nanosleep, sem_wait, sem_open, shm_open, poll, connect, accept, recv, send, recvfrom, sendto and the same oracles plus exact semaphore "
          "counter accounting (raw handle on the platform key) are applied; a case only counts when its signal/injection actually fired.",
     note="Injection obeys each call's real contract (clock_nanosleep returns the error number). Finite storms only."),
+ "C20": dict(cat="exploration", ref="§3 C20",
+    technique="runtime resource monitor: tracking allocator (PMemVTable) + /proc/self/fd + /proc/self/maps + /dev/shm name probes + --wrap descriptor life-cycle table, compared before/after create-then-free sequences",
+    text="27 create-use-free sequences over all modules (successful and failing exits, multi-handle IPC with equal/larger/smaller/zero sizes, threads, TLS) and random concatenations of them; after each repetition "
+         "the process must hold no new library allocation (sites reported), no new descriptor, no /dev/shm mapping, none of the sequence's IPC names, and every descriptor the library obtained must have been closed exactly once; "
+         "after p_libsys_shutdown no library block may be alive at all.",
+    note="glibc-internal descriptors only via /proc/self/fd; anonymous mappings not compared; one warm-up run precedes each snapshot."),
 }
 
 NOT_YET = {}
